@@ -113,6 +113,32 @@ func init() {
 		}
 		return plus(g1) + " " + plus(g2) + " " + plus(g3) + " " + plus(m1) + " " + plus(m2) + " " + plus(m3)
 	})
+	// profile <alphabet> <rows> <char code> <site> : NewCountProfileFromAlignment; header (hex), the counts of every
+	// header character at every site, Count(char, site), and whether the length check accepts L (and rejects L+1)
+	register("profile", func(a []string) string {
+		al := alFrom(a[1], atoi(a[0]))
+		p := align.NewCountProfileFromAlignment(al)
+		n := p.NbCharacters()
+		header := make([]uint8, n)
+		counts := make([]string, n)
+		for i := 0; i < n; i++ {
+			c, err := p.NameAt(i)
+			if err != nil {
+				return "err-nameat"
+			}
+			header[i] = c
+			v, err := p.CountsAt(i)
+			if err != nil {
+				return "err-countsat"
+			}
+			counts[i] = plus(v)
+		}
+		cnt := "err"
+		if c, err := p.Count(uint8(atoi(a[2])), atoi(a[3])); err == nil {
+			cnt = "ok:" + itoa(c)
+		}
+		return hexz(header) + " " + strJoin(counts) + " " + cnt + " " + btoa(p.CheckLength(al.Length())) + btoa(p.CheckLength(al.Length()+1))
+	})
 	// refmuts <alphabet> <seq> <ref>
 	register("refmuts", func(a []string) string {
 		s := align.NewSequence("s", []uint8(a[1]), "")
